@@ -83,9 +83,10 @@ def dict2crystalmap(dictionary: dict) -> CrystalMap:
 
     # New dictionary with CrystalMap initialization arguments as keys
     crystal_map_dict = {
-        # Use dstack and squeeze to allow more rotations per data point
+        # Stack along a new last axis to allow more rotations per data
+        # point and to keep the shape of the rotations
         "rotations": Rotation.from_euler(
-            np.dstack((data.pop("phi1"), data.pop("Phi"), data.pop("phi2"))).squeeze(),
+            np.stack((data.pop("phi1"), data.pop("Phi"), data.pop("phi2")), axis=-1),
         ),
         "scan_unit": header["scan_unit"],
         "phase_list": dict2phaselist(header["phases"]),
